@@ -187,11 +187,15 @@ def check_c07(pid, tier, seed, replay=None):
         scs.append(fam_history(rng, f, 14 if quick else 30, f'hist-gap{i}-{f}'))
     bis, _ = fam_bisect(random.Random(seed * 31 + 7), True, kinds=('ps', 'psp', 'psl'))
     scs += bis if not quick else bis[(seed % 2)::2]
-    res = run_batch(pid, tier, scs, bindir)
+    with ThreadPoolExecutor(max_workers=2) as ex0:
+        fmc = ex0.submit(read_model_check, pid, quick)
+        res = run_batch(pid, tier, with_pages(scs), bindir)
+        mc, extra_viol = fmc.result()
+    readmodel = model_fidelity(res, 'VFRead_Trace'); readmodel['design'] = mc
     rules = READ_RULES | SEEK_RULES | SAFETY_RULES | {'OpenStartsAtZero','IntactOpenSucceeds'}
     return finish(pid, tier, seed, 'model_checking', scs, res, rules, t0,
       'scenario = one recorded vorbisfile call history on one generated stream (TLC-generated symbolic histories from VFApi_MC concretised on real files, random mixed histories, linear reads, seek grids and histories on streams with stretches of more than 64 KiB without a granule position of the link); non-trivial = at least one read that delivered samples after open, >= 4 events; distinct = distinct script text',
-      nontrivial_default, COMMON_ASSUME, extra_cov=dict(tla_generator=tl['stats']))
+      nontrivial_default, COMMON_ASSUME, extra_cov=dict(tla_generator=tl['stats'], read_model=readmodel, design_model=dict(states=mc['states'], transitions=mc['transitions'])), extra_viol=extra_viol)
 
 # ---------------------------------------------------------------- C08
 BISECT_FILES = ['ZA', 'ZB', 'ZC', 'ZD', 'ZE', 'ZF']
@@ -215,6 +219,13 @@ def fam_bisect(rng, quick, kinds=('ps', 'psp')):
             out.append(s)
     return out, {f: C.FILES[f] for f in files}
 
+def with_pages(scs):
+    """page table, link table and callback seeks of every file a scenario opens are logged (for the implementation-shaped models run next to the calls)"""
+    for s in scs:
+        if 'damaged' in s.tags or any(l.startswith('pages ') for l in s.lines): continue
+        s.lines[0:0] = [f'pages {fid(f)}' for f in s.files] + ['sklog 1']
+    return scs
+
 def model_fidelity(res, module):
     """second validation of the traces that carry page tables: <module> (VFSeek_Trace / VFOpen_Trace) runs the implementation-shaped model on the real
        page table and compares what it predicts (callback seeks, link table) with what the call did"""
@@ -222,11 +233,11 @@ def model_fidelity(res, module):
     tps = [tp for tp in glob.glob(os.path.join(res['rundir'], 'b*.ndjson')) if any('"Pages"' in l for l in open(tp))]
     def val(tp): return tp, vlib.validate_trace(module + '.tla', module + '.cfg', tp, timeout=1500)
     with ThreadPoolExecutor(max_workers=8) as ex: rs = list(ex.map(val, tps))
-    out = dict(traces=len(tps), calls_compared=0, probes_not_as_modelled=0, model_submits_other_page=0, link_table_not_as_modelled=0, states=0, examples=[])
+    out = dict(traces=len(tps), calls_compared=0, damaged_opens_followed=0, probes_not_as_modelled=0, model_submits_other_page=0, link_table_not_as_modelled=0, open_verdict_not_as_modelled=0, state_not_as_modelled=0, states=0, examples=[])
     for tp, r in rs:
         if r['error'] or not r['ok']: res['infra'].append(f'TLC problem ({module}) on {tp}: ' + r['out'][-600:]); continue
         out['states'] += r['distinct']
-        out['calls_compared'] += sum(int(x) for x in re.findall(r'COMPARED (\d+)', r['out']))
+        out['calls_compared'] += sum(int(x) for x in re.findall(r'COMPARED (\d+)', r['out'])); out['damaged_opens_followed'] += len(re.findall(r'FOLLOWED 1', r['out']))
         evs = vlib.read_ndjson(tp)
         for m in re.finditer(r'"DRIFT (\{.*\})"', r['out']):
             try: v = json.loads(m.group(1).replace('\\"', '"'))
@@ -234,10 +245,12 @@ def model_fidelity(res, module):
             if 'ProbesAsModelled' in v['rules']: out['probes_not_as_modelled'] += 1
             if 'ModelSubmitsRightPage' in v['rules']: out['model_submits_other_page'] += 1
             if 'LinkTableAsModelled' in v['rules']: out['link_table_not_as_modelled'] += 1
+            if 'OpenVerdictAsModelled' in v['rules']: out['open_verdict_not_as_modelled'] += 1
+            if 'StateAsModelled' in v['rules']: out['state_not_as_modelled'] += 1
             if len(out['examples']) < 5:
-                e = evs[v['line'] - 1]; out['examples'].append(dict(scn=v['scn'], rules=v['rules'], pos=e.get('pos'), off0=e.get('off0'), probes=e.get('probes'), tab=e.get('tab')))
-    if out['probes_not_as_modelled'] or out['model_submits_other_page'] or out['link_table_not_as_modelled']:
-        vlib.log(f"[{module}] MODEL-DRIFT notes: probes {out['probes_not_as_modelled']}, page {out['model_submits_other_page']}, link table {out['link_table_not_as_modelled']} of {out['calls_compared']} calls; first: {out['examples'][:1]}")
+                e = evs[v['line'] - 1]; out['examples'].append(dict(scn=v['scn'], line=v['line'], ev=e.get('e'), rules=v['rules'], pos=e.get('pos'), off0=e.get('off0'), ret=e.get('ret'), probes=e.get('probes'), tab=e.get('tab'), model=v.get('model'), code={k: e.get(k) for k in ('ret', 'tell', 'rs', 'cur', 'off')}))
+    if out['probes_not_as_modelled'] or out['model_submits_other_page'] or out['link_table_not_as_modelled'] or out['open_verdict_not_as_modelled'] or out['state_not_as_modelled']:
+        vlib.log(f"[{module}] MODEL-DRIFT notes: probes {out['probes_not_as_modelled']}, page {out['model_submits_other_page']}, link table {out['link_table_not_as_modelled']}, verdict {out['open_verdict_not_as_modelled']}, handle state {out['state_not_as_modelled']} of {out['calls_compared']} calls; first: {out['examples'][:1]}")
     return out
 def bisect_fidelity(res, extra_viol): return model_fidelity(res, 'VFSeek_Trace')
 
@@ -256,6 +269,22 @@ def open_model_check(pid, quick):
             else: raise SystemExit(f'TLC failed on {c}: ' + o[-800:])
     r = vlib.run_tlc('VFOpen_MC.tla', 'VFOpen_MC_pinned_clamp.cfg', workers=4, timeout=600)
     out['pinned_rules_refuted']['VFOpen_MC_pinned_clamp.cfg'] = bool(r['violated'])
+    return out, viol
+
+def read_model_check(pid, quick):
+    """VFRead_MC: the decode path of a seekable handle (fetch-and-process, read, raw seek, page seek hand-over, sample-exact seek) over small chained files and
+       every short history of calls - what a read hands out is what the stand-alone decode has at the position reported; and one pinned rule (the
+       discard loop of ov_pcm_seek judging by the FIRST link's long block, as the pinned tree did) that TLC must refute"""
+    out = dict(states=0, transitions=0, configs={}, pinned_rules_refuted={}); viol = []
+    for c in ['VFRead_MC.cfg'] + ([] if quick else ['VFRead_MC_bsizes.cfg', 'VFRead_MC_2.cfg']):
+        r = vlib.run_tlc_cached('VFRead_MC.tla', c, workers=8 if quick else 14, timeout=600 if quick else 3000, xmx='4g' if quick else '12g')
+        out['configs'][c] = dict(ok=bool(r['ok']), states=r['distinct'], wall_s=round(r['wall'], 1)); out['states'] += r['distinct']; out['transitions'] += r['generated']
+        if not r['ok']:
+            os.makedirs(vlib.REPLAY, exist_ok=True); p = os.path.join(vlib.REPLAY, f'{pid}-design-{c}.txt'); o = r['out']; i = o.find('Error:'); open(p, 'w').write(o[max(0, i):i + 6000])
+            if r['violated']: viol.append(dict(replay=p, what=f'design-level invariant of VFRead_MC violated under {c}: the decode path as modelled from the current tree reports a position that is not where the audio comes from, refuses an in-range seek or does not end'))
+            else: raise SystemExit(f'TLC failed on {c}: ' + o[-800:])
+    r = vlib.run_tlc('VFRead_MC.tla', 'VFRead_MC_pinned_vi.cfg', workers=4, timeout=600)
+    out['pinned_rules_refuted']['VFRead_MC_pinned_vi.cfg'] = bool(r['violated'])
     return out, viol
 
 def seek_model_check(pid, quick):
@@ -301,14 +330,15 @@ def check_c08(pid, tier, seed, replay=None):
     bis, bis_files = fam_bisect(rng, quick); scs += bis
     with ThreadPoolExecutor(max_workers=2) as ex0:
         fmc = ex0.submit(seek_model_check, pid, quick)
-        res = run_batch(pid, tier, scs, bindir)
+        res = run_batch(pid, tier, with_pages(scs), bindir)
         mc, extra_viol = fmc.result()
     seekmodel = bisect_fidelity(res, extra_viol); seekmodel['design'] = mc
+    readmodel = model_fidelity(res, 'VFRead_Trace')
     rules = SEEK_RULES | READ_RULES | SAFETY_RULES
     def nt(s, evs): return sum(1 for e in evs if e.get('e') in ('PcmSeek','PcmSeekPage','RawSeek','TimeSeek','TimeSeekPage') and e.get('ret')==0) >= 3
     return finish(pid, tier, seed, 'model_checking', scs, res, rules, t0,
       'scenario = chain of seeks of one kind (sample / page / raw / time, each followed by reads) on one generated stream, targets = every page, packet and link boundary +-1, 0, L, L+-1, negative, fractions (thorough: every position of short files, every prior-history class) + the bisect family: streams with stretches of more than one probe step (64 KiB) without a granule position of the link (packets padded over several pages, multiplexed streams, a first audio page that ends no packet), every page / packet boundary +-1 and a dense sweep, with the page table and the callback seeks of every call logged and compared with VFSeek.tla; non-trivial = >= 3 successful seeks; distinct = distinct script text',
-      nt, COMMON_ASSUME, extra_cov=dict(seek_model=seekmodel, bisect_files=bis_files, design_model=dict(states=mc['states'], transitions=mc['transitions'])), extra_viol=extra_viol)
+      nt, COMMON_ASSUME, extra_cov=dict(seek_model=seekmodel, read_model=readmodel, bisect_files=bis_files, design_model=dict(states=mc['states'], transitions=mc['transitions'])), extra_viol=extra_viol)
 
 # ---------------------------------------------------------------- C09
 def check_c09(pid, tier, seed, replay=None):
@@ -351,18 +381,19 @@ def check_c09(pid, tier, seed, replay=None):
         res = run_batch(pid, tier, scs, bindir, nproc=16)
         mc, extra_viol = fmc.result()
     openmodel = model_fidelity(res, 'VFOpen_Trace'); openmodel['design'] = mc
+    readmodel = model_fidelity(res, 'VFRead_Trace')
     rules = OPEN_RULES | READ_RULES | SAFETY_RULES | CLEAR_RULES
     def nt(s, evs): return any(e.get('e')=='Open' and e.get('ret')==0 for e in evs) and any(e.get('e') in ('ReadF','ReadI') and e.get('ret',0)>0 for e in evs)
     return finish(pid, tier, seed, 'model_checking', scs, res, rules, t0,
       'scenario = seekable open of a generated chained file (k in 1..6, occasionally 40, links drawn from a catalogue incl. 0-sample, 1-sample and single-page links, random packets-per-page layouts, foreign multiplexed streams, non-zero initial granule positions) followed by link-table queries and an uninterrupted read to EOF, through ov_read_float and through the integer reader ov_read; non-trivial = open succeeded and audio was delivered; distinct = distinct file layout + script',
-      nt, COMMON_ASSUME, extra_cov=dict(generated_files=len(extra_files), open_model=openmodel, design_model=dict(states=mc['states'], transitions=mc['transitions'])), extra_viol=extra_viol)
+      nt, COMMON_ASSUME, extra_cov=dict(generated_files=len(extra_files), open_model=openmodel, read_model=readmodel, design_model=dict(states=mc['states'], transitions=mc['transitions'])), extra_viol=extra_viol)
 
 # ---------------------------------------------------------------- C10
 def check_c10(pid, tier, seed, replay=None):
     t0 = time.time(); rng = random.Random(seed*7919+10)
     bindir = vlib.build('asan')
     quick = (tier != 'thorough')
-    files = ['B','C','D','E','I','K','N','X'] + ([] if quick else ['A','H','J','L','M','O','P','Q','F','V'])
+    files = ['B','C','D','E','I','K','N','X','Y'] + ([] if quick else ['A','H','J','L','M','O','P','Q','F','V'])      # Y: serial numbers with the top bit set
     scs = []
     srs = [(1,0),(2,1),(2,2),(3,7),(3,27),(3,28),(3,255),(4,0),(4,1),(4,-1),(5,0),(5,1),(5,3),(3,4096)]
     if not quick: srs += [(2,s) for s in range(3,40)] + [(3,k) for k in (2,3,5,26,29,100,281,282,283,1000,2047)] + [(4,k) for k in (-3,2,5,26,27,28)] + [(5,k) for k in range(-5,30)]
@@ -385,11 +416,12 @@ def check_c10(pid, tier, seed, replay=None):
         for init in (1, 27, 58, 4096):
             scs.append(fam_linear(f, mode='stream', name=f'init{init}-{f}', lens=(4096,), extra_pre=[]))
             scs[-1].lines[0] = f'open 0 {fid(f)} stream init={init}'
-    res = run_batch(pid, tier, scs, bindir)
+    res = run_batch(pid, tier, with_pages(scs), bindir)
+    readmodel = model_fidelity(res, 'VFRead_Trace')
     rules = READ_RULES | OPEN_RULES | SAFETY_RULES
     return finish(pid, tier, seed, 'model_checking', scs, res, rules, t0,
       'scenario = complete decode of one generated stream through vorbisfile in seekable or streaming mode under one short-read schedule of the read callback (1 byte, random, fixed k, page-boundary +-d, inside-page-header +-d) and one schedule of requested lengths; every delivered chunk is located bit-exactly in the packet-level reference decode; non-trivial = audio delivered; distinct = distinct script text',
-      nontrivial_default, COMMON_ASSUME + ['third access path (packet-level API) is the reference itself'])
+      nontrivial_default, COMMON_ASSUME + ['third access path (packet-level API) is the reference itself'], extra_cov=dict(read_model=readmodel))
 
 # ---------------------------------------------------------------- C19 lapped seeks / crosslap
 def fam_lapgrid(rng, f, kind, targets, name, pre):
@@ -711,7 +743,7 @@ def check_c03(pid, tier, seed, replay=None):
             if quick and (k * 5 + seed) % (3 if kind == 'setgp' else 17): k += 1; continue
             key = f'ZG{k}'; C.FILES[key] = C.FILES[f]; k += 1
             mode = ('seek', 'seek', 'seek', 'stream', 'test')[k % 5]
-            ls = [f'open 0 {fid(key)} {mode}', 'q 0']
+            ls = ([f'pages {fid(key)}', 'sklog 1'] if mode == 'seek' else []) + [f'open 0 {fid(key)} {mode}', 'q 0']
             for t in ('0', 'e:0', 'e:-1', 'f:0:1:2:0', '1'):
                 for op in ('ps', 'psp', 'psl'): ls += [f'{op} 0 {t}', 'rf 0 64']
             ls += ['ts 0 0 0 0', 'tsp 0 0 100 0', 'rs 0 oe:-1', 'rf 0 4096', 'rfn 0 100000 -1', 'hr 0 1', 'ps 0 1', 'rf 0 64', 'clear 0', 'clear 0']
@@ -734,6 +766,9 @@ def check_c03(pid, tier, seed, replay=None):
         for k2 in ('events', 'states', 'transitions', 'traces', 'harness_s', 'tlc_s'): res[k2] += r2[k2]
         for k2 in ('viols', 'infra'): res[k2] += r2[k2]
         res['scn_events'].update(r2['scn_events'])
+        # the model of the link discovery follows the open of every file of this family whose lies it can express (audio pages only) and must predict
+        # verdict, link table and callback seeks: this is what carries VFOpen_MC's exhaustive result on lying pages over to the code
+        openmodel = model_fidelity(r2, 'VFOpen_Trace')
     rules = SAFETY_RULES | {'ReadUndocumentedCode','SeekUndocumentedCode','OpenUndocumentedCode','HalfRateUndocumentedCode','CrosslapUndocumentedCode',
                             'FailedOpenLeavesHandleCleared','FailedOpenMustNotClose','OpenMustNotClose','NoCloseBehindCaller','ClearReturnsZero','ClearZeroesHandle',
                             'CloseRunsExactlyOnceAtClear','CloseOnlyForOpenedHandles','ReadAtMostLen','WritesInsideBuffer','ClearReleasesEverything'}
@@ -741,7 +776,7 @@ def check_c03(pid, tier, seed, replay=None):
     return finish(pid, tier, seed, 'exploration', scs, res, rules, t0,
       'scenario = a generated chained stream with 1..5 page-level damages drawn from {garbage between pages, capture pattern in garbage, dropped / duplicated / swapped page, truncation at byte d of a page, rewritten granule position (negative, 0, huge, decreasing) with CRC re-fixed, cleared/extra EOS, extra BOS, rewritten serial number (incl. a repeat of another link), bit flips with and without CRC fix, zeroed body}, opened seekable / streaming / via ov_test, followed by 10 random calls over the whole vorbisfile API (reads, every seek and lapped seek, half-rate, crosslap with an intact handle, queries) and a double clear; run under ASan+UBSan with CPU budget and exit trap; oracle (decided in VFApi): no crash, no hang, no exit, documented return codes, failed open leaves the handle zeroed and the source unclosed, close exactly once, no leak; non-trivial = >= 6 events; distinct = distinct damage list + script',
       nt, ['structured damage only (page level); arbitrary byte strings are not claimed','identity/position rules are switched off for damaged streams'],
-      extra_cov=dict(damage_kinds=DAMAGE_KINDS))
+      extra_cov=dict(damage_kinds=DAMAGE_KINDS, open_model_on_lying_pages=openmodel if lie else None))
 
 # ---------------------------------------------------------------- C17 integer PCM packing
 def pcm_probe_values(seed):
